@@ -567,6 +567,46 @@ pub fn generated_parametric() -> Vec<PGram> {
             }
         }
     }
+    // guarded empty alternative: sel::p -> "" %if COND | "a" sel::set_bit(0) %if bit_clear(0) | "b" sel::set_bit(1)
+    // %if bit_clear(1), for every boolean shape of COND over the two bits (negated conjunctions / disjunctions,
+    // double negation, mixed): whether sel::p can derive the empty string is what the engine precomputes
+    // per parameter value; `start: sel::0` and `start: sel::0 "c"` (the nullable symbol must be stepped over)
+    {
+        let atoms = [Cond::BitSet(0), Cond::BitClear(0), Cond::BitSet(1), Cond::BitClear(1)];
+        let bx = |c: &Cond| Box::new(c.clone());
+        let mut conds: Vec<Cond> = vec![];
+        for a in atoms.iter() {
+            conds.push(Cond::Not(bx(&Cond::Not(bx(a)))));
+            for b in atoms.iter() {
+                if a == b {
+                    continue;
+                }
+                conds.push(Cond::Not(bx(&Cond::And(bx(a), bx(b)))));
+                conds.push(Cond::Not(bx(&Cond::Or(bx(a), bx(b)))));
+                conds.push(Cond::And(bx(a), bx(&Cond::Not(bx(b)))));
+                conds.push(Cond::Or(bx(&Cond::Not(bx(a))), bx(b)));
+                conds.push(Cond::Not(bx(&Cond::And(bx(&Cond::Not(bx(a))), bx(b)))));
+            }
+        }
+        let mut k = 0;
+        for cond in conds {
+            for tail in [false, true] {
+                let sel = vec![
+                    Alt { cond: cond.clone(), syms: vec![] },
+                    Alt { cond: Cond::BitClear(0), syms: vec![tt(b'a'), Sym::N(1, PExpr::SetBit(0))] },
+                    Alt { cond: Cond::BitClear(1), syms: vec![tt(b'b'), Sym::N(1, PExpr::SetBit(1))] },
+                ];
+                let mut top = vec![Sym::N(1, c(0))];
+                if tail {
+                    top.push(tt(b'c'));
+                }
+                let bnf = Bnf { nts: vec![vec![Alt { cond: Cond::True, syms: top }], sel] };
+                let name: &'static str = Box::leak(format!("genp-sel-{k}").into_boxed_str());
+                k += 1;
+                out.push(PGram { name, lark: print(&["start", "sel"], &bnf), bnf });
+            }
+        }
+    }
     // left-recursive counting: l::p -> l::(p+1) "a" while p < k | "b"
     for k in 1..=3u64 {
         let l = vec![
